@@ -153,6 +153,19 @@ func runC01(tier string, seed uint64) {
 					s.Head(b, k+".src", "")
 				case 3:
 					s.apiPut(b, k, body, m)
+				case 4:
+					// aws-chunked PUT with the same metadata (plus content codings the server must hand back as sent)
+					mm := append([]KV{}, m...)
+					hasEnc := false
+					for _, kv := range mm {
+						if kv.K == "Content-Encoding" {
+							hasEnc = true
+						}
+					}
+					if !hasEnc {
+						mm = append(mm, KV{"Content-Encoding", []string{"deflate", "aws-chunked,gzip", "compress", "identity"}[n%4]})
+					}
+					s.ChunkedPutMeta(b, k, body, []int{4096}, nil, n%2 == 0, len(body), mm)
 				}
 				s.Get(b, k, "")
 				s.Head(b, k, "")
@@ -168,7 +181,7 @@ func runC01(tier string, seed uint64) {
 			}
 			for i, sz := range sizes {
 				body := rng.Bytes(sz)
-				for how := 0; how < 4; how++ {
+				for how := 0; how < 5; how++ {
 					if how == 1 && sz == 0 {
 						// browser form with an empty file still uploads an empty object
 					}
@@ -176,7 +189,7 @@ func runC01(tier string, seed uint64) {
 				}
 			}
 			for _, k := range keys {
-				round(k, rng.Bytes(100+rng.Intn(50)), metas[rng.Intn(len(metas))], rng.Intn(4))
+				round(k, rng.Bytes(100+rng.Intn(50)), metas[rng.Intn(len(metas))], rng.Intn(5))
 			}
 			if !noInt {
 				for _, sz := range big {
@@ -207,5 +220,5 @@ func runC01(tier string, seed uint64) {
 			s.end()
 		}
 	}
-	sample("per backend x integrity on/off: bodies of 0,1,2,63..65,4095..4097,32767..32769 random bytes (and 1 MiB+1; 5 MiB+3 thorough) x 8 keys (spaces, '+', UTF-8, '?', '&', '%41%2F', ';', ',', 401 bytes nested) x 4 metadata sets (none; type + x-amz-meta; the same headers with empty values; type+encoding+disposition+900-byte value), every key overwritten under each set in turn, uploaded by PUT (with/without Content-MD5), browser-form POST, copy (plain, and with metadata headers of its own, the source re-read afterwards), and Backend.PutObject; each followed by GET and HEAD (HTTP and Backend API) and a listing of the key; groups of keys that differ only by '/', '_', '\\', case, ' ', '+', '%20', trailing '.' each get their own body and metadata, are read back, one is rewritten, one deleted, all read again")
+	sample("per backend x integrity on/off: bodies of 0,1,2,63..65,4095..4097,32767..32769 random bytes (and 1 MiB+1; 5 MiB+3 thorough) x 8 keys (spaces, '+', UTF-8, '?', '&', '%41%2F', ';', ',', 401 bytes nested) x 4 metadata sets (none; type + x-amz-meta; the same headers with empty values; type+encoding+disposition+900-byte value), every key overwritten under each set in turn, uploaded by PUT (with/without Content-MD5), aws-chunked PUT (with content codings), browser-form POST, copy (plain, and with metadata headers of its own, the source re-read afterwards), and Backend.PutObject; each followed by GET and HEAD (HTTP and Backend API) and a listing of the key; groups of keys that differ only by '/', '_', '\\', case, ' ', '+', '%20', trailing '.' each get their own body and metadata, are read back, one is rewritten, one deleted, all read again")
 }
